@@ -175,7 +175,10 @@ CHECKS = {
              "(granted and refused attempts) yields 230 (quick) / 2250 (thorough) behaviours executed against the real "
              "handlers with a VIP fake, software U2F tokens and real TOTP secrets; the TLC monitor evaluates the action's "
              "requirement guards on the specification state and, independently, FactorGain against what the fakes report "
-             "was really proven.",
+             "was really proven. Every hardware-token behaviour is repeated through the WebAuthn login API (software token; "
+             "foreign tokens naming the user's own key handle). Module KMFederated adds the OAuth2 web login (the federated "
+             "factor): redirect cookie / state binding, one-time entries, expiry by the daemon's own clean-up pass - "
+             "model-checked (134 k states) and bound to the real handlers with a fake provider.",
         note="Okta push is specified and model-checked but its handlers are not driven yet (needs the Okta fake as password "
              "backend); WebAuthn finish shares the U2F challenge path and is driven through /u2f/SignResponse only. Time is "
              "advanced by ageing stored state.",
@@ -206,8 +209,10 @@ CHECKS = {
              "defines Serializable, NotUndone and OneSpend; TLC checks them for all pairs (thorough: triples) of the 14 "
              "operations under the atomic (required) semantics and finds the violations under the as-built load/save split. "
              "On the implementation, a scheduler inside a wrapping SQL driver lets exactly one request run at a time and "
-             "switches at every profile load / write-transaction begin, so every interleaving of every handler pair on the "
-             "same user is executed against real sqlite storage; the TLC monitor accepts a run iff its answers and final "
+             "switches before and after every profile load and at every write-transaction begin (storage operations are "
+             "attributed by goroutine; work a handler leaves to a goroutine of its own passes unscheduled and is awaited), "
+             "so every interleaving of every handler pair on the same user - 16 operations incl. hardware-token sign-ins "
+             "through both APIs - is executed against real sqlite storage; the TLC monitor accepts a run iff its answers and final "
              "stored profile equal those of some one-after-another order. A -race build runs a seeded concurrent mix of "
              "login, U2F sign, VIP push, TOTP, token management, readiness and the real cleanup loop; a report with a "
              "keymaster frame fails G_C16_NoRace.",
@@ -225,7 +230,8 @@ CHECKS = {
              "lock-test-unlock-use readers; TLC checks OneTransition, WrongStaysSealed, OnlyRightWithCert, SealedSignsNothing, "
              "NoHalfInit, PublishedIncludeSigning and ExactlyOneOk over all interleavings, and a reader that skips the mutex "
              "violates NoHalfInit (control). The implementation is checked against the atomic view: every route of main() on "
-             "a sealed server (nothing signed, not ready), 24 injection shapes on four key-file worlds incl. failed-unseal "
+             "a sealed server (nothing signed, not ready), 30 injection shapes (HTTPS with / without certificate, and the secrets-manager route) on seven key-file worlds "
+             "(complete certificate requests after every failed injection) incl. failed-unseal and half-opening "
              "worlds, sequences around a successful unseal, published CA / SSH CA / JWKS versus the keys that really sign, and "
              "concurrent injectors + requesters under the race detector with call/return order checked for a single transition.",
         note="The AWS auto-unseal path is not driven (needs AWS Secrets Manager); it calls the same unsealCA.",
@@ -261,7 +267,9 @@ CHECKS = {
              "KMRecorderLoop models the recorder's event loop (snapshot cache invalidated by every event, save five "
              "seconds after a change, restart); the REAL eventLoop is driven through its channels (events of all five "
              "kinds, dashboard queries, the delayed save, restarts from the saved file) and judged by its monitor; a "
-             "publication flood with a subscriber that reads nothing decides NeverBlocks.",
+             "publication flood with a subscriber that reads nothing decides NeverBlocks; a tap among the notifier's own "
+             "subscriber channels decides 'no later than the response' when the handler returns, and 'same bytes' for "
+             "certificates signed back to back while events are queued.",
         note="'No later than the response' is observed as arrival within one second at a draining subscriber; the monitord "
              "network client is not driven (the recorder's loop and functions are).",
         ref="DESIGN.md 4 C20"),
